@@ -618,4 +618,32 @@ theorem json_roundtrip (lf : Leaf) (zero : String → Bytes) (sW sR : JSpec) (r 
       simp only [jsonRead, get, List.lookup, hb] at this ⊢
       exact this
 
+
+/-- The hash input only depends on the hashed fields (and on Version / Type, which select them). -/
+theorem hashInput_congr (T : Tables) (r r' : Rec)
+    (hv : get r' "Version" = get r "Version") (ht : get r' "Type" = get r "Type")
+    (h : ∀ f ∈ hashedNames T r, get r' f = get r f) : hashInput T r' = hashInput T r := by
+  have hver : version r' = version r := by unfold version; rw [hv]
+  have hkind : kind T r' = kind T r := by unfold kind; rw [ht]
+  unfold hashedNames specOf at h
+  unfold hashInput
+  rw [hver, hkind]
+  have e1 : encFields T.pre r' = encFields T.pre r :=
+    encFields_congr _ _ _ fun p hp => h p.1 (by simp only [List.map_append, List.mem_append]; exact Or.inl (Or.inl (List.mem_map_of_mem hp)))
+  have e2 : encFields (T.details (version r) (kind T r)) r' = encFields (T.details (version r) (kind T r)) r :=
+    encFields_congr _ _ _ fun p hp => h p.1 (by simp only [List.map_append, List.mem_append]; exact Or.inl (Or.inr (List.mem_map_of_mem hp)))
+  have e3 : tailBytes T.tail r' = tailBytes T.tail r := by
+    unfold tailBytes
+    have : ∀ l : List String, (∀ g ∈ l, get r' g = get r g) → l.flatMap (get r') = l.flatMap (get r) := by
+      intro l
+      induction l with
+      | nil => intro _; rfl
+      | cons g l ih =>
+        intro hl
+        simp only [List.flatMap_cons]
+        rw [hl g (by simp), ih (fun g hg => hl g (by simp [hg]))]
+    exact this T.tail fun g hg => h g (by simp only [List.mem_append]; exact Or.inr hg)
+  rw [e1, e2, e3]
+
+
 end Pithos.AuditLog
